@@ -217,6 +217,34 @@ def _GridWorld(case, rng):
             exp = step + frd.get(feat[(ns["x"], ns["y"])], 0.0)
             case.check(abs(gw.reward(s, a, ns) - exp) <= 1e-12, "gridworld:reward!=step-cost+entered-cell-feature-reward",
                        lambda: f"{(x, y)}->{(ns['x'], ns['y'])}: {gw.reward(s, a, ns)!r} want {exp!r}")
+    if gw is not case.FAIL:
+        # the read accessors describe the layout that was passed in
+        def accessors():
+            bad = []
+            cell = lambda x, y: frozendict({"x": x, "y": y})
+            where = lambda chars: sorted([(x, y) for (x, y), f in feat.items() if f in chars])
+            as_xy = lambda lst: sorted((c_["x"], c_["y"]) for c_ in lst)
+            if (gw.width, gw.height) != (w, h):
+                bad.append(f"size {(gw.width, gw.height)} vs {(w, h)}")
+            if as_xy(gw.walls) != where("#"):
+                bad.append("walls")
+            if as_xy(gw.initial_states) != where("s"):
+                bad.append("initial_states")
+            if as_xy(gw.absorbing_states) != where(absf):
+                bad.append("absorbing_states")
+            lf = {(k["x"], k["y"]): v for k, v in gw.location_features.items()}
+            if lf != {k: v for k, v in feat.items() if v != "."}:          # "." is the separator: a cell without a feature
+                bad.append("location_features")
+            fl = {f: sorted((c_["x"], c_["y"]) for c_ in cells) for f, cells in gw.feature_locations.items()}
+            if fl != {f: where(f) for f in set(feat.values()) if f != "."}:
+                bad.append("feature_locations")
+            if sorted(as_xy([s_ for s_, p_ in gw.initial_state_dist().items() if p_ > 0])) != where("s"):
+                bad.append("initial_state_dist support")
+            return bad
+        bad = case.call("GridWorld accessors", accessors)
+        case.count("gridworld_accessor_sets_checked")
+        if bad is not case.FAIL:
+            case.check(not bad, "gridworld:accessor-disagrees-with-layout", lambda: f"{bad!r} layout {rows!r}")
     return gw, params, dict(physics=physics if gw is not case.FAIL else None)
 
 
@@ -248,6 +276,8 @@ def _LoadUnload(case, rng):
     from msdm.domains.loadunload import LoadUnload
     n = rng.randint(2, 8)
     g = rng.choice([0.99, 0.5])
+    if rng.random() < 0.1:
+        return case.call("LoadUnload()", lambda: LoadUnload()), dict(nstates="default", discount_rate="default"), {}
     return case.call("LoadUnload", lambda: LoadUnload(nstates=n, discount_rate=g)), dict(nstates=n, discount_rate=g), {}
 
 
@@ -257,5 +287,9 @@ def _HeavenOrHell(case, rng):
     c = rng.choice([0.5, 0.9, 1])
     g = rng.choice([0.95, 0.5])
     params = dict(layout=rows, coherence=c, discount_rate=g)
+    if rng.random() < 0.1:
+        # the documented defaults (built-in grid, coherence .95, discount .95)
+        params = dict(layout="default", coherence="default", discount_rate="default")
+        return case.call("HeavenOrHell()", lambda: HeavenOrHell()), params, {}
     m = case.call("HeavenOrHell", lambda: HeavenOrHell(coherence=c, discount_rate=g, grid="\n".join(rows)))
     return m, params, {}
